@@ -97,7 +97,16 @@ class Module:
         if getattr(self, "_expander", None) is None:
             from .expand import Expander
             self._expander = Expander(self)
-        return self._expander.expand(qual, index, fs[index])  # type: ignore
+        out = self._expander.expand(qual, index, fs[index])
+        key = ("alias", qual, index)
+        if key not in self._expander.cache:
+            from .expand import propagate_method_aliases
+            res = propagate_method_aliases(out)
+            if res is not out and not hasattr(res, "_vt_qual"):
+                res._vt_qual = qual          # type: ignore[attr-defined]
+                res._vt_origin = fs[index]   # type: ignore[attr-defined]
+            self._expander.cache[key] = res
+        return self._expander.cache[key]  # type: ignore
 
     def cls(self, qual: str) -> ast.ClassDef:
         d = self.get_all(qual)
